@@ -4,7 +4,8 @@
 (*   terms : c = class name, n, terms = <<<<params, count>>>> as computed from the specification   *)
 (*   count : c, n, params, cnt = count_objects_of_size(n, **params)                                *)
 (*   spec  : root, rules = rule descriptors (SpecValid.tla), stage = "raw" | "final"               *)
-EXTENDS WordUniverse, SpecValid, Json, IOUtils
+(*   expand: see Expand.tla                                                                        *)
+EXTENDS WordUniverse, SpecValid, Expand, Json, IOUtils
 Traces == ndJsonDeserialize(IOEnv.TRACE_FILE)
 VARIABLES t, l
 vars == <<t, l>>
@@ -15,6 +16,7 @@ Clause(tr, e) ==
     [] e.op = "count" ->
          IF e.cnt = CountIn(TrueTerms(tr.classes[e.c], e.n), e.params) THEN "ok" ELSE "CountForParametersEqualsTrueNumber"
     [] e.op = "spec" -> SpecClause(e.rules, e.root, SeqSetS(tr.te), SeqSetS(tr.pack))
+    [] e.op = "expand" -> ExpandClause(e)
     [] e.op = "outcome" -> IF e.kind \in {"spec", "none", "timeout"} THEN "ok" ELSE "SearchRaised:" \o e.kind
     [] OTHER -> "UnknownEvent"
 Init == t = 1 /\ l = 1 /\ TLCSet(1, 0)
